@@ -227,22 +227,35 @@ def chain_case(ctx, pydsdl, rng, mon, depth=None, seed=None):
             cand = ("pad", tree, primes[lv % len(primes)])
         tree = cand
     case = {"chain": seed, "depth": depth, "style": style}
+    wide = r.random() < 0.25
+    if wide:
+        # a flat n-ary concatenation (one call with `depth` operands) instead of a chain: few sums, exponentially many tuples
+        style = case["style"] = "wide-concatenation"
+        step = r.choice([1, 1, 8, 3])
+        leaves = [tuple(sorted({r.randrange(0, 3) * step, r.randrange(0, 3) * step})) for _ in range(depth)]
+        tree = ("concat", tuple(("leaf", lv) for lv in leaves))
     expansion = R.ref_expand(tree)
     divs = [1, 2, 3, 7, 8, 16, 30, 32, 64, r.randrange(2, 1000)]
-    obj, _actual = G.Builder(pydsdl.BitLengthSet, __import__("random").Random(seed)).build(tree)
+    if wide:
+        B_ = pydsdl.BitLengthSet
+        obj = B_.concatenate([B_(set(lv)) if r.random() < 0.7 else set(lv) for lv in leaves])
+    else:
+        obj, _actual = G.Builder(pydsdl.BitLengthSet, __import__("random").Random(seed)).build(tree)
     mon.reset()
     mon.step_budget = chain_budget(depth)
+    mon.tuple_budget = 20 * chain_budget(depth)  # tuples enumerated inside itertools (C code, invisible to the step meter)
     mon.steps_on()
     try:
         ctx.mon("deep-chain")
         got = {"min": obj.min, "max": obj.max, "mods": {d: set(obj % d) for d in divs}, "aligned": obj.is_aligned_at_byte(), "iter": set(obj)}
     except BudgetExceeded:
         mon.steps_off()
-        ctx.violation("C01/cost-exponential-in-depth", "no answer within %d logical steps for a chain of %d operators over a %d-element set (%s): %s" % (
-            mon.step_budget, depth, len(expansion), style, R.render(tree)[:300]), case)
+        ctx.violation("C01/cost-exponential-in-depth", "no answer within %d logical steps / %d enumerated tuples for %d operators over a %d-element set (%s): %s" % (
+            mon.step_budget, mon.tuple_budget, depth, len(expansion), style, R.render(tree)[:300]), case)
         return
     finally:
         mon.steps_off()
+    ctx.notes["deep_chain_max_tuples_over_depth_squared"] = max(ctx.notes.get("deep_chain_max_tuples_over_depth_squared", 0), mon.tuples // (depth * depth))
     ctx.notes["deep_chain_max_steps_over_depth_squared"] = max(ctx.notes.get("deep_chain_max_steps_over_depth_squared", 0), mon.steps // (depth * depth))
     exp = {"min": min(expansion), "max": max(expansion), "mods": {d: {x % d for x in expansion} for d in divs},
            "aligned": all(x % 8 == 0 for x in expansion), "iter": set(expansion)}
@@ -257,7 +270,7 @@ def run_shard(ctx):
     from pv.core import repo_root
     from pv.mon.symbolic import SymbolicMonitor
 
-    mon = SymbolicMonitor(pydsdl, repo_root() / "pydsdl")
+    mon = SymbolicMonitor(pydsdl, repo_root() / "pydsdl").install()  # counting proxy for itertools inside _symbolic (tuple budget)
     for _ in range(ctx.share(ctx.params.get("n_chains", 0))):
         if ctx.out_of_time():
             break
@@ -273,6 +286,7 @@ def run_shard(ctx):
         except Exception as ex:  # noqa
             mon.steps_off()
             ctx.violation("C01/exception", "%r on a deep chain" % (ex,), {"chain": cseed, "depth": None})
+    mon.uninstall()
     n_small = ctx.share(ctx.params["n_small"])
     n_large = ctx.share(ctx.params["n_large"])
     rng = ctx.rng
@@ -309,7 +323,11 @@ def replay(ctx, case):
         from pv.core import repo_root
         from pv.mon.symbolic import SymbolicMonitor
 
-        chain_case(ctx, pydsdl, ctx.rng, SymbolicMonitor(pydsdl, repo_root() / "pydsdl"), case["depth"], case["chain"])
+        m = SymbolicMonitor(pydsdl, repo_root() / "pydsdl").install()
+        try:
+            chain_case(ctx, pydsdl, ctx.rng, m, case["depth"], case["chain"])
+        finally:
+            m.uninstall()
         return
     tree = totuple(case["tree"])
     try:
